@@ -1018,4 +1018,91 @@ theorem is_through_constructors (h : Heap) (cmp : Val → Bool) (v t : Val) (m r
 example : errorsIs (newWithCause (wrap #[] (.plain 0 "p")).1 "m" (.ref 0)).1 (fun _ => true) (.ref 1) (.plain 0 "p") = .found := by
   decide
 
+
+/-! ## Audit follow-up: `errors.As` with a target of the cause's own type, `%q`, the empty error, what the frame theorems exclude -/
+
+/-- **`errors.As` still reaches the cause — with a target of the CAUSE'S OWN type** (`Model/ErrsWalk.lean` `errorsAs`, op
+    `asf` of the stateful area: `errors.As(e, &target)` with `target` of the dynamic type of any value).  `ty` gives the dynamic
+    type of a value, `k` is the type of the non-nil error `v` and is not `*errs.Error`: `errors.As` on `Wrap(v)`, `WrapTyped(v)`,
+    `NewWithCause(m, v)` and on the error `Recovery` hands to its handler after `panic(v)` finds `v` ITSELF (the stored value is
+    the cause, not the wrapper — `as_finds_error` is about `*errs.Error` targets) -/
+theorem as_reaches_foreign_cause (h : Heap) (ty : Val → Nat) (k : Nat) (v : Val) (m recoveryMsg : String)
+    (hn : isNil v = false) (hty : ty v = k) (hr : ty (.ref h.size) ≠ k) :
+    (asError v = false → errorsAs (wrap h v).1 ty k (wrap h v).2 = .found v) ∧
+    ((∀ id, v ≠ .ref id) → errorsAs (wrapTyped h v).1 ty k (wrapTyped h v).2 = .found v) ∧
+    errorsAs (newWithCause h m v).1 ty k (newWithCause h m v).2 = .found v ∧
+    errorsAs (recovery h recoveryMsg (.err v) true).1 ty k (.ref h.size) = .found v := by
+  have hv0 : v ≠ .nilIface := by intro e; rw [e] at hn; simp [isNil] at hn
+  have key : ∀ n : ENode, n.cause = v → errorsAs (h.push n) ty k (.ref h.size) = .found v :=
+    fun n hc => errorsAs_push_cause h ty k n v hc hv0 hty hr
+  have hnw : ∀ s : String, newWithCause h s v = (h.push { msg := s, hasStack := true, cause := v }, .ref h.size) := by
+    intro s; simp [newWithCause, hn]
+  refine ⟨?_, ?_, ?_, ?_⟩
+  · intro ha
+    have hw : wrap h v = (h.push (wrapperNode v), .ref h.size) := by simp [wrap, hn, ha]
+    rw [hw]; exact key _ rfl
+  · intro hrr
+    rw [(wrapTyped_reaches_cause h v hn hrr).1]; exact key _ rfl
+  · rw [hnw m]; exact key _ rfl
+  · have hrec : (recovery h recoveryMsg (.err v) true).1 = (newWithCause h recoveryMsg v).1 := rfl
+    rw [hrec, hnw recoveryMsg]; exact key _ rfl
+
+/-! the walk goes through foreign wrappers and causes, two levels deep; of an aggregate it sees the FIRST error's cause
+    only (observed on the code: corpus `errs.asforeign.ops`, `v7`, `v12`, `v14`); it can fail and it can panic -/
+def ty0 : Val → Nat
+  | .ref _ => 0 | .typedNil => 0 | .fwrap _ _ _ => 1 | .plain uid _ => 2 + uid | _ => 100
+example : errorsAs (newWithCause #[] "m" (.plain 1 "s")).1 ty0 3 (.fwrap 9 "w" (.ref 0)) = .found (.plain 1 "s") := by decide
+example : errorsAs (append (new #[] "a").1 (.ref 0) [.plain 1 "s"]).1 ty0 3 (.ref 0) = .none := by decide
+example : errorsAs (append #[] (.plain 1 "s") [.ref 0]).1 ty0 3 (.ref 0) = .found (.plain 1 "s") := by decide
+example : errorsAs #[] ty0 3 (.fwrap 9 "w" .typedNil) = .panics := by decide
+
+/-- **`%q` renders the message** (`fmtQ`, compared on every `render` line for messages of printable ASCII, newline, tab and
+    carriage return): the rendering is the message between double quotes with the five escapes of `strconv.Quote` that can
+    occur there, and NOTHING of the message is lost — reading the escapes back (`unquoteChars`) gives the message -/
+theorem quoted_reads_back (h : Heap) (id : Nat) (q : String) (hq : fmtQ h id = some q) :
+    q.toList = '"' :: quoteChars (message h id).toList ++ ['"'] ∧
+    unquoteChars (quoteChars (message h id).toList) = (message h id).toList := by
+  refine ⟨?_, unquote_quote _⟩
+  unfold fmtQ at hq
+  simp only at hq
+  split at hq
+  · have := Option.some.inj hq
+    rw [← this]
+    have hq1 : "\"".toList = ['"'] := by decide
+    simp only [String.toList_append, String.toList_join, List.flatMap_map, hq1, quoteChars]
+    simp
+  · cases hq
+
+example : fmtQ #[{ msg := "a\"b\n" }] 0 = some "\"a\\\"b\\n\"" := by decide
+example : fmtQ #[{ msg := "é" }] 0 = none := by decide
+
+/-- **OBSERVATION (`&Error{}`)**: an empty non-nil `*Error` has `Count() = 0` while `WrappedErrors()` returns ONE element (its
+    loop has no `empty()` test) — the two agree on every result of `Append` (`wrapped_errors_eq`, `count_eq`: chains of `WF`
+    heaps never contain an empty cell except as a lone head), not on this value; printed on every line of the stateful
+    stream that holds an `empty` variable (`e#k[0|-|z|-.]`: count 0, one element) -/
+theorem empty_error_count_vs_wrapped (h : Heap) (id : Nat) (n : ENode) (hn : h[id]? = some n) (he : nodeEmpty n = true) :
+    count h id = 0 ∧ (wrappedErrors h id).length = 1 ∧ errorOrNil h (.ref id) = .nilIface := by
+  have hnext : n.next = none := by
+    simp only [nodeEmpty, Bool.and_eq_true] at he
+    simpa using he.2
+  have hno : nextOf h id = none := by simp [nextOf, hn, hnext]
+  have hch : chain h (fuelOf h) id = [id] := by simp [fuelOf, chain, hno]
+  have hem : isEmpty h id = true := by simp [isEmpty, hn, he]
+  refine ⟨by simp [count, hch, hem], by simp [wrappedErrors, hch, hn], by simp [errorOrNil, hem]⟩
+
+example : count #[{ msg := "" }] 0 = 0 ∧ (wrappedErrors #[{ msg := "" }] 0).length = 1 := by decide
+
+/-- CONTRAST to `append_only_links` / `history_only_links`.  In the model of the real code those two cannot fail: `setNext`
+    is the only write to an existing cell the transcription contains, so they state a property of the transcription (that a
+    Go change writing another field of an old cell is noticed rests on the stream re-observing every variable after every
+    call).  What they exclude is a SECOND field written on an existing error — the cached `tail` of `ind7-c11-a`: in that
+    variant `Append` rewrites the hint of the accumulator's first cell, a field other than `next` of a cell that existed, and
+    the analogue of `history_only_links` for the extended cell is false -/
+theorem cached_tail_is_a_second_write :
+    ∃ (s : CHeap) (id : Nat) (args : List Val), id < s.h.size ∧ (appendC s id args).tl[id]? ≠ s.tl[id]? ∧
+      ∀ (i : Nat) (n : ENode), s.h[i]? = some n → ∃ m, (appendC s id args).h[i]? = some m ∧
+        n.msg = m.msg ∧ n.cause = m.cause ∧ n.hasStack = m.hasStack ∧ n.wrapped = m.wrapped :=
+  ⟨{ h := h0, tl := #[none, some 2, none, none] }, 1, [.plain 0 "p"], by decide, by decide,
+    (onlyLinks_appendLoop _ _ _ _ _).2⟩
+
 end C11
